@@ -254,6 +254,37 @@ def merge_family(rng):
     return G(allrules, nt, shape="merge-family")
 
 
+def late_lookahead_family(rng):
+    """One nonterminal X reached in two (or three) contexts of the start rule with different followers, the
+    later contexts behind longer terminal prefixes (so their states are created late and their lookaheads
+    arrive by merging / propagation after the shared states were closed), plus a sibling Q: X | C where C
+    spells the same terminal prefix as X's expansion (a state with a reduction next to a shift)."""
+    t = list(TERMS[:8])
+    rng.shuffle(t)
+    u, v, w, f1, f2, p1, p2, p3 = t
+    depth = rng.choice([0, 1, 1, 2])
+    rules = {}
+    # expansion chain of X:  X: u Y; Y: v   (optionally X -> M wrappers)
+    rules["B"] = [[v]]
+    rules["A"] = [[u, "B"]]
+    rules["C"] = [[u, v, w]] if rng.random() < 0.7 else [[u, v, w], [u, w]]
+    top = "A"
+    names = ["D", "E"]
+    for i in range(depth):
+        n = names[i]
+        rules[n] = [[p3, top]] if rng.random() < 0.5 else [[top]]
+        top = n
+    rules["Q"] = [["A"], ["C"]] if rng.random() < 0.8 else [["C"], ["A"]]
+    alts = [[top, f1], [p1] * rng.choice([1, 2, 2]) + [top, f2], [p2, "Q", f2]]
+    if rng.random() < 0.3:
+        alts.append([p2, p2, "Q", f1])
+    rng.shuffle(alts)
+    order = ["S"] + [n for n in ["D", "E", "Q", "A", "B", "C"] if n in rules]
+    rules["S"] = alts
+    g = G([(n, rules[n]) for n in order], 8, shape="late-lookahead")
+    return g
+
+
 def annotate(rng, g):
     """random priorities / associativities / nops / nopse on productions and terminals"""
     meta, tmeta = {}, {}
